@@ -32,8 +32,8 @@ func checkC01(w *World, r *Report) {
 	c01IndexWithData(w, r, a, "C01.c", "c-index-with-data")
 	c01ReadOwnBatch(w, r, a, "C01.d", "d-read-own-batch")
 	c01ReadBeforeWrite(w, r, a)
-	c01KeySpace(w, r, a)
-	c01Bounds(w, r, a)
+	c01KeySpace(w, r, a, "C01.f", "f-key-space")
+	c01Bounds(w, r, a, "C01.g", "g-bounded-exact-reads")
 	c01Exhaustive(w, r, a)
 }
 
@@ -484,8 +484,8 @@ func c01ReadBeforeWrite(w *World, r *Report, a *FsmA) {
 }
 
 // ---- C01.f ----
-func c01KeySpace(w *World, r *Report, a *FsmA) {
-	ob := r.Ob("C01.f", "f-key-space", "keys handed to batch writes outside the commit function are Bytes() of a buffer that was filled by the user-key encoder on every path, or the incremented fresh copy of the maximum user key; bookkeeping keys are loaded only by the commit function (as Set key) and as the key argument of the index reader; the user-key encoder builds a key with the user type constant, bookkeeping keys with the system constant, user < system; package-level key slices are never passed to a function that writes through its parameter", "otherwise a user command can read, shadow or alter the bookkeeping, or the wildcard bound drifts after its first use")
+func c01KeySpace(w *World, r *Report, a *FsmA, id, slug string) {
+	ob := r.Ob(id, slug, "keys handed to batch writes outside the commit function are Bytes() of a buffer that was filled by the user-key encoder on every path, or the incremented fresh copy of the maximum user key; bookkeeping keys are loaded only by the commit function (as Set key) and as the key argument of the index reader; the user-key encoder builds a key with the user type constant, bookkeeping keys with the system constant, user < system; package-level key slices are never passed to a function that writes through its parameter", "otherwise a user command can read, shadow or alter the bookkeeping, or the wildcard bound drifts after its first use")
 	gl := findBookkeepingGlobals(w)
 	for _, k := range []string{"local", "leader", "maxuser", "wildcard"} {
 		if gl[k] == nil {
@@ -917,8 +917,8 @@ func paramOnlyGetKey(fn *ssa.Function, i int) bool {
 }
 
 // ---- C01.g ----
-func c01Bounds(w *World, r *Report, a *FsmA) {
-	ob := r.Ob("C01.g", "g-bounded-exact-reads", "the range generator's iterator options are the result of the bounds builder, which sets LowerBound and UpperBound on every success path and chooses the wildcard bound exactly under bytes.Equal(end, wildcard); the single-key read uses Get or a prefix seek whose comparer Split is the identity", "an unbounded range read leaks bookkeeping keys; a non-exact single read returns the successor of a missing key")
+func c01Bounds(w *World, r *Report, a *FsmA, id, slug string) {
+	ob := r.Ob(id, slug, "the range generator's iterator options are the result of the bounds builder, which sets LowerBound and UpperBound on every success path and chooses the wildcard bound exactly under bytes.Equal(end, wildcard); the single-key read uses Get or a prefix seek whose comparer Split is the identity", "an unbounded range read leaks bookkeeping keys; a non-exact single read returns the successor of a missing key")
 	_, gens := findRangeGenerators(w)
 	bounds := w.Func(fsmRel, "iterOptionsForBounds")
 	if bounds == nil {
